@@ -111,9 +111,13 @@ def monitor(tr, case):
         nh = (f3 + b3) * fac
         if nh.max() > 0.1:
             m = int(nh.argmax())
-            bad("feed_or_biofuel_while_below_threshold" + ("" if c["STORE_FOOD_BETWEEN_YEARS"] else "_no_storage_regime"),
+            # two different mechanisms: (a) the final result is as good as the no-feed round and the feed comes from months that had
+            # more than the worst month (round 2 pins people at the worst-month level in every month and hands the rest to animals,
+            # less 20 kcal/person/day); (b) feed actually costs people food (final result below the no-feed round)
+            harmless = p1 is not None and p3 >= p1 - 0.1
+            bad(("feed_from_surplus_months_while_below_threshold" if harmless else "feed_or_biofuel_while_below_threshold"),
                 "final result feeds %.3f%% < threshold %.3g%% yet month %d gives %.3f%%-equivalent to feed+biofuel" % (p3, T, m, nh[m]),
-                month=m, p3=p3, T=T, amount_pct=float(nh.max()))
+                month=m, p3=p3, p1=p1, T=T, amount_pct=float(nh.max()), store_between_years=bool(c["STORE_FOOD_BETWEEN_YEARS"]))
         if p1 is not None and p3 < p1 - 0.1:
             bad("final_result_below_no_feed_round", "final %.4f%% < no-feed round %.4f%% while below the threshold %.3g%%" % (p3, p1, T), p1=p1, p3=p3, T=T)
     else:
